@@ -144,6 +144,13 @@ func RunC11(c *Ctx) {
 				c.Rec.C("with_bracket_quote_or_backslash_inside_string")
 			}
 			var fresh rjson.Buffer
+			// the long-lived Buffer is shared by BOTH skippers, as a caller that picks the skipper per
+			// member would share it: SkipValue leaves its stack in a state that SkipValueFast never
+			// produces on its own (seeded change C11r6-m1: cap(stack) tested where len(stack) matters)
+			if c.Rec.R.Cases%2 == 0 {
+				rjson.SkipValue(d[:len(d)/2], &long)
+				c.Rec.Evals(1)
+			}
 			for i, b := range []*rjson.Buffer{nil, &fresh, &long, deep} {
 				pf, errf := rjson.SkipValueFast(d, b)
 				c.Rec.Evals(1)
